@@ -1,6 +1,6 @@
 #!/bin/bash
 # verify_mutant.sh <MUTANT_ID> : confirm (suite passes with change) (demo fails with change) (demo passes without)
-id=$1; prop=${id%_*}; wt=/tmp/mut/$prop; m=/tmp/mut/out/$id
+id=$1; prop=${id%_*}; wt=/tmp/mut/$prop; m=/tmp/mut/out/$id; [ -d /tmp/mut/out2/$id ] && m=/tmp/mut/out2/$id
 cd $wt || exit 2
 git checkout -q -- . && git clean -qfd -e target
 place=$(grep -m1 -ioE "(PLACE AT|Place this file at): *[^ ]+" $m/demo.rs | sed -E 's/.*: *//')
